@@ -14,6 +14,9 @@ CLAIMED = {
  "C01": dict(
    text="a reference RDB writer in the harness emits, per skeleton (28 value shapes x 4-6 attribute variants, metadata/multi-key/multi-db/encoded-key skeletons), a byte stream with symbolic field values, contents and length forms together with the expected records; the real loader (Header/NextBinEntry/Footer, readObjectValue, ReadString incl. int and LZF forms, module-aux skipping, createValueDump) runs on it from its SSA and every record field and the payload bytes (type || exact serialized bytes || version || CRC) are asserted for all symbolic values",
    note=NOTE_COMMON + "skeletons are enumerated concretely (strings <= 3 bytes, <= 3 elements, <= 3 keys); DUMP and file CRCs are computed on the oracle side by the tool's own digest over the same byte terms (C11 shows that digest is CRC-64/Jones); the 16 MiB chunked hash is not encoded"),
+ "C02": dict(
+   text="utils.RestoreRdbEntry with restoreBigRdbEntry, restoreQuicklistEntry, flushAndCheckReply, CompareVersion and the rdb reader helpers run from SSA against a model target: plain RESTORE route (policy x REPLACE support x pre-existing key x six version strings x expiry past/future/none x three ShiftTime values, symbolic payload, ttl, idle, freq), element route for 14 value skeletons (classic types, ziplist list/hash/zset with every entry encoding class, intset widths, zipmap incl. zmlen 254 and free bytes, quicklist, integer strings) with symbolic contents, chunked hashes, quicklist route, Bad-data-format fallback, Lua, flush-batch sizes; the model key must hold the source's logical value and ttl, policies none/ignore must leave the target untouched",
+   note=NOTE_COMMON + "the model target (tiny Redis) is trusted; the clock is a fixed instant with a symbolic ExpireAt (a symbolic clock needs 64-bit division by 10^6 that no back end decides); zset scores from a concrete list; counterexamples replayed by engine-concrete re-execution (stubbed clock); one known finding (chunked hash + ignore)"),
  "C09": dict(
    text="ring offset lemmas (roffset/woffset) for arbitrary 64-bit positions; one-step refinement of memBuffer/fileBuffer readSome/writeSome from an arbitrary valid symbolic state against a ghost stream; sequential close rules on the real pipe; protocol runs with a writer goroutine and the reader in the main goroutine where every interleaving at mutex/cond/channel granularity (preemption bound 2, thorough 3) is a branch of the search, with deadlock detection and an explicit hand-shake so that wake-up must come from progress, not from close",
    note=NOTE_COMMON + "concrete ring sizes in the lemmas (a symbolic size is not decided within 60 s by any back end); step lemmas on an 8-byte ring; stream-length induction on paper; sync.Mutex/Cond/WaitGroup are engine primitives; schedule-dependent counterexamples are replayed by engine-concrete re-execution"),
